@@ -58,6 +58,21 @@ Proof.
   assert (m0 = m) by (apply (nodup_same_id (s_mboxes s)); [apply W | assumption | assumption | congruence]). subst. lia.
 Qed.
 
+(* what a session may show: every (uid, message) pair that was ever announced for a mailbox is a pair of that mailbox's
+   UID table - two announcements of one UID carry the same message, and an announced UID that is still in the mailbox
+   carries the message of that row *)
+Lemma view_pairs_consistent : forall s h e, wf s -> In e (s_log (run' s h)) ->
+  (forall e', In e' (s_log (run' s h)) -> e_id e' = e_id e -> e_uid e' = e_uid e -> e_msg e' = e_msg e) /\
+  (forall m r, In m (s_mboxes (run' s h)) -> mb_id m = e_id e -> In r (mb_rows m) -> fst r = e_uid e -> snd r = e_msg e).
+Proof.
+  intros s h e W He. destruct (good_run hash fx c clock h s W) as [W' _]. split.
+  - intros e' He' Hi Hu. rewrite (log_incr_functional _ e' e (wf_incr _ _ _ W') He' He Hi Hu). reflexivity.
+  - intros m r Hm Hi Hr Hu. destruct (wf_rows _ _ _ W' m r Hm Hr) as (v & Hv).
+    assert (E : (mb_id m, v, fst r, snd r) = e).
+    { apply (log_incr_functional _ _ e (wf_incr _ _ _ W') Hv He); [exact Hi | exact Hu]. }
+    rewrite <- E. reflexivity.
+Qed.
+
 (* ---------- announced UIDs ---------- *)
 Lemma find_name_ins : forall s n m ms, wf s -> find_name n (s_mboxes s) = Some m ->
   find_name n (s_mboxes (ins_msgs (mb_id m) ms s)) = Some (mb_ins ms m).
